@@ -257,6 +257,7 @@ class Spec:
             if not rs: return 'ERR'
             tg = [pub[r] for r in rs]
             self.encs.append((all(h for h, _ in tg), [v for _, v in tg])); return 'OK'
+        if op == 'RFBAD': return 'ERR' if self.usks else 'NOIDX'
         if op == 'SNAP':
             self.snaps.append(copy.deepcopy((self.dims, self.next_eid, self.msk, self.known))); return 'OK'
         if op == 'REST':
